@@ -627,6 +627,16 @@ impl C07 {
                     }
                 }
                 ensure(Array::<K, String>::get_range(&x, ..) == &sv[..], || "get_range<String>".into())?;
+                // equality of arrays is element-wise, also at zero-sized and heap-allocated element types
+                if BACKEND_NAME == "vec" {
+                    use open_hypergraphs::array::vec::VecArray;
+                    let (ua, ub) = (VecArray(vec![(); v.len()]), VecArray(vec![(); idx.len()]));
+                    ensure((ua == ub) == (v.len() == idx.len()), || format!("VecArray<()> of lengths {} and {} compare {}", v.len(), idx.len(), ua == ub))?;
+                    let (sa, sb) = (VecArray(v.iter().map(|k| format!("s{}", k)).collect::<Vec<_>>()), VecArray(idx.iter().map(|k| format!("s{}", k)).collect::<Vec<_>>()));
+                    ensure((sa == sb) == (v == idx), || format!("VecArray<String> {:?} == {:?} is {}", v, idx, sa == sb))?;
+                    let (na, nb) = (VecArray(v.clone()), VecArray(idx.clone()));
+                    ensure((na == nb) == (v == idx) && na == na.clone(), || format!("VecArray<usize> {:?} == {:?} is {}", v, idx, na == nb))?;
+                }
                 // element-wise + and - at an element type whose operations do not commute: x[i] (op) y[i], in this order
                 if BACKEND_NAME == "vec" && v.len() == idx.len() {
                     use open_hypergraphs::array::vec::VecArray;
